@@ -20,7 +20,8 @@ use crate::BinOperator;
 
 fn declare() {
     use crate::instruction::verif_gate::*;
-    scalar_ops_only();
+    allow_binops(b(crate::BinOperator::AssignAdd) | b(crate::BinOperator::GreaterOrEqual) | b(crate::BinOperator::Modulo));
+    allow_unops(u(crate::unary_operator::UnaryOperator::Return) | u(crate::unary_operator::UnaryOperator::Indirection));
     allow_mask((1 << K_VARIABLE) | (1 << K_BINOPERATION) | (1 << K_UNARYOPERATION) | (1 << K_BLOCK) | (1 << K_IFELSE) | (1 << K_MATCH) | (1 << K_SETIFELSE) | (1 << K_LOOP));
 }
 fn iws(i: Instruction) -> InstructionWithStr {
